@@ -53,3 +53,17 @@ Qed.
 
 Lemma source_shape_emit : fwd_emit_writes_at_out_len = true /\ back_emit_maps_input_positions = true.
 Proof. split; reflexivity. Qed.
+
+(* ------------------------------------------------------------------ the one-element copy of the stage loops *)
+(* REGENERATED guards (Gen/GEmit.v): when the guard lets the copy through, the element written at index out_len is
+   below maxlength, and each guard is the test `out_len + 1 > maxlength' that Model/Pass.v and Model/BackPass.v use *)
+Require Import ZifyBool.
+Lemma fwd_stage_copy_l : forall o m,
+  (fwd_correct_copy_rejects o m = false -> o < m) /\ (fwd_pass_copy_rejects o m = false -> o < m) /\
+  fwd_correct_copy_rejects o m = (o + 1 >? m) /\ fwd_pass_copy_rejects o m = (o + 1 >? m).
+Proof. intros o m. unfold fwd_correct_copy_rejects, fwd_pass_copy_rejects. repeat split; lia. Qed.
+
+Lemma back_stage_copy_l : forall o m,
+  (back_correct_copy_rejects o m = false -> o < m) /\ (back_pass_copy_rejects o m = false -> o < m) /\
+  back_correct_copy_rejects o m = (o + 1 >? m) /\ back_pass_copy_rejects o m = (o + 1 >? m).
+Proof. intros o m. unfold back_correct_copy_rejects, back_pass_copy_rejects. repeat split; lia. Qed.
